@@ -29,7 +29,7 @@ from pbt import envs, strategies as S, walk
 from pbt.refsem import (RefSkip, _guard, _lshift, _pow, describe, exc_site,
                         ref_eval)
 from pbt.runner import Result
-from pbt.spec import HarnessError, build_const
+from pbt.spec import twin_how, HarnessError, build_const
 
 PROP = "C03"
 LEVEL = "exploration"
@@ -294,7 +294,9 @@ def symbolic_tree(res, prog):
     return tree, it
 
 
-def compare_envs(res, prog, tree, env_specs):
+def compare_envs(res, prog, tree, env_specs, exact_mode=False):
+    """exact_mode: integer environments, where a shortcut (x**0 -> 1) cannot change the
+    type of an operand from Fraction to int and with it the type of a later power"""
     n_def = 0
     for env_spec in env_specs:
         env = envs.build_env(env_spec)
@@ -323,6 +325,14 @@ def compare_envs(res, prog, tree, env_specs):
         if not agree(ref[1], v):
             res.fail("value-mismatch",
                      f"plain value {describe(v)}, tree {tree!r} evaluates to "
+                     f"{describe(ref[1])} at {small}")
+            break
+        if exact_mode and isinstance(v, int) and not isinstance(v, bool) \
+                and isinstance(ref[1], (float, np.floating)) and ref[1] != v:
+            # the tolerance above is for floats that take part in the plain computation;
+            # an exact plain result that comes back inexact is a different computation
+            res.fail("value-inexact",
+                     f"plain value is the exact {describe(v)}, tree {tree!r} evaluates to "
                      f"{describe(ref[1])} at {small}")
             break
     return n_def
@@ -367,6 +377,19 @@ def _vars(pr, out=None):
     return out
 
 
+def _retype_prog(s, how):
+    if isinstance(s, list):
+        if len(s) == 3 and s[0] == "n":
+            if how == "i2f" and s[1] == "int" and abs(s[2]) < 2 ** 50:
+                return ["n", "float", float(s[2])]
+            if how == "f2i" and s[1] == "float" and s[2] == s[2] \
+                    and abs(s[2]) < 2 ** 50 and s[2] == int(s[2]):
+                return ["n", "int", int(s[2])]
+            return s
+        return [_retype_prog(c, how) for c in s]
+    return s
+
+
 def check_program(spec):
     """spec: {"prog":..., "mode": "int"|"frac"|"mat"}"""
     res = Result()
@@ -379,6 +402,21 @@ def check_program(spec):
         # unless integer-only operators are present too (then stay on ints)
         if not ops & INT_ONLY:
             mode = "frac"
+    how = twin_how(prog)
+    if how:
+        # the same program with its numbers retyped (4 -> 4.0 / 2.0 -> 2) is run through
+        # the operators first: nothing of it may stick to this program's tree
+        twin = _retype_prog(prog, how)
+        if twin != prog:
+            res.label("twin-first")
+            try:
+                Interp(True).run(twin)
+            except RecursionError:
+                raise
+            except BaseException as exc_:
+                if isinstance(exc_, (KeyboardInterrupt, SystemExit)) or \
+                        type(exc_).__name__ == "CaseTimeout":
+                    raise
     tree, it = symbolic_tree(res, prog)
     exc = getattr(it, "construction_error", None)
     if exc is not None:
@@ -406,7 +444,7 @@ def check_program(spec):
     res.label("mode:" + mode)
     if mode == "mat":
         res.label("mat")
-    n_def = compare_envs(res, prog, tree, env_list(prog, mode))
+    n_def = compare_envs(res, prog, tree, env_list(prog, mode), exact_mode=mode == "int")
     if n_def == 0:
         return res.skip("plain-computation-undefined-everywhere")
     res.nontrivial = it.n_ops >= 2 and (tree_ops < it.n_ops or it.reflected)
